@@ -55,6 +55,11 @@ impl AllEqual {
 
 impl Prune for AllEqual {
     fn prune(&self, ctx: &mut Context) -> Option<()> {
+        // No variables: nothing can differ
+        if self.vars.is_empty() {
+            return Some(());
+        }
+
         // Compute the intersection of all variable domains
         let (new_min, new_max) = self.compute_domain_intersection(ctx)?;
 
